@@ -16,4 +16,4 @@ ASSUMPTIONS = ["std::io::Write::write_all writes exactly its argument or reports
 
 def run(ctx):
     return [r_cli.rule_stdout(ctx, "C17", stdin_clause=True), r_cli.rule_fs(ctx, "C17", stdin_clause=True),
-            r_cli.rule_ignore_arg(ctx, "C17"), r_cfg.rule_search_start(ctx, "C17"), r_cli.rule_workers(ctx, "C17"), r_cli.rule_exact_read(ctx, "C17"), r_cfg.rule_override_last(ctx, "C17"), r_cfg.rule_stdin_filepath(ctx, "C17")]
+            r_cli.rule_ignore_arg(ctx, "C17"), r_cfg.rule_search_start(ctx, "C17"), r_cli.rule_workers(ctx, "C17"), r_cli.rule_exact_read(ctx, "C17"), r_cfg.rule_override_last(ctx, "C17"), r_cfg.rule_stdin_filepath(ctx, "C17"), r_cli.rule_ignore_match(ctx, "C17")]
